@@ -539,6 +539,28 @@ example : ∃ σ', Evals { frames := #[{ parent := none, defs := [("apply", .bui
     case h => exact .apply (by simp) rfl .refl
   case hq => exact (fault_type_car (x := .num (.int 5)) (by intro a d h; cases h)).loop 0
 
+/-- OBSERVATION (two faults in one call): when the operator is a non-procedure AND an operand fails,
+the DIRECT call reports `nonProcedure` (the operands' outcome is looked at only for a procedure) while
+the same call as a PENDING TAIL CALL reports the operand's error (`eval_procedure_call` propagates it
+before the procedure test). Both are errors, neither invents a value; the kinds differ by context. The
+property's quantifier (one fault per program) does not cover this case. -/
+theorem two_faults_order {σ ρ f args l fv σ₁ er σ₂} (hf : Evals σ ρ f (.ok fv) σ₁)
+    (ha : EvalsArgs σ₁ ρ args (.error er) σ₂) (hp : procArity fv = none) :
+    Evals σ ρ (.call f args l) (.error (.nonProcedure, f.loc)) σ₂ ∧
+    ∀ σ₀ lam cenv args' env,
+      arityOk lam.formals.fixed.length lam.formals.rest.isSome args'.length = true →
+      AppliesScheme σ₀ lam cenv args' (.ok (.tailCall f args ρ)) σ →
+      Applies σ₀ (.closure lam cenv) args' env (.error er) σ₂ :=
+  ⟨Evals.call_nonproc hf ha hp, fun _ _ _ _ _ hok hs => Applies.closure_tail_arg_err hok hs hf ha⟩
+
+/-- `(5 zz)`: directly `nonProcedure`, in tail position `unbound` -/
+example : Evals {} 0 (.call (.prim (.int 5) none) [.sym "zz" none] none) (.error (.nonProcedure, none)) {} ∧
+    Applies {} (.closure (.mk ⟨[], none⟩ [] [.call (.prim (.int 5) none) [.sym "zz" none] none]) 0) [] 0
+      (.error (.unbound, none)) (({} : Store).newFrame (some 0)).2 :=
+  ⟨(two_faults_order (σ := {}) (ρ := 0) (Evals.prim rfl) (EvalsArgs.cons_err (Evals.sym_unbound rfl)) rfl).1,
+   (two_faults_order (l := none) (Evals.prim rfl) (EvalsArgs.cons_err (Evals.sym_unbound rfl)) rfl).2 {} _ 0 [] 0 rfl
+     (AppliesScheme.intro_ok rfl EvalsDefs.nil (EvalsBody.last EvalsTail.call))⟩
+
 /-! ## 4. the effects completed before the error are kept, and later forms are evaluated normally -/
 
 /-- OPERANDS: when operand `a` fails the returned store `σ₃` is the store reached by evaluating the
